@@ -485,8 +485,10 @@ class Balancer:
             new_right = claripy.Concat(truism.args[1], claripy.BVV(0, len(left_lsb)))
             return Bool(truism.op, (new_left, new_right))
 
-        if low == 0 and truism.args[1].op == "BVV" and truism.op not in {"SGE", "SLE", "SGT", "SLT"}:
-            # single-valued rhs value with an unsigned operator
+        if low == 0 and truism.args[1].op == "BVV" and truism.op in {"UGE", "UGT", "__ne__"}:
+            # single-valued rhs value with an unsigned operator that survives the unknown high bits of `inner`:
+            # inner >= inner[high:0] as unsigned numbers, and inner == ZeroExt(v) implies inner[high:0] == v.
+            # (==, ULE and ULT do not: inner[1:0] == 2 also holds for inner = 6.)
             # Eliminate Extract on lhs and zero-extend the value on rhs
             new_left = inner
             new_right = claripy.ZeroExt(inner.size() - truism.args[1].size(), truism.args[1])
